@@ -137,12 +137,13 @@ pub fn base_weights(prop: &str) -> Vec<u32> {
         }
         "C12" => {
             set(stat);
-            set(&[(TamperSlot, 6), (TamperEnc, 4)]);
+            // a little rotation, so that the PKE / header layers also meet multi-revision keys
+            set(&[(TamperSlot, 6), (TamperEnc, 4), (Rekey, 1), (RequestRefresh, 1)]);
         }
         "C08" => {
             set(stat);
             set(refresh);
-            set(&[(Rekey, 4), (ForgedRefresh, 10)]);
+            set(&[(Rekey, 4), (ForgedRefresh, 10), (Backup, 1), (Restore, 1), (Reload, 1)]);
         }
         "C14" => {
             set(stat);
@@ -765,8 +766,11 @@ impl Gen {
         }
         let n_rights = w.users[user].usk.as_ref().map(|(_, m)| m.rights.len()).unwrap_or(1).max(1);
         let other = rng.below(w.users.len());
-        match rng.below(26) {
+        match rng.below(32) {
             24 | 25 => UskOp::SplitChain { i: rng.below(n_rights), k: rng.below(3) },
+            26 | 27 => UskOp::AddEmptyRight { other_user: other, j: rng.below(8), raw: { let n = rng.range(0, 3); rng.bytes(n) } },
+            28 | 29 => UskOp::MoveSecretToEnd { from: rng.below(n_rights), to: rng.below(n_rights) },
+            30 | 31 => UskOp::SwapSecretsAcross { i: rng.below(n_rights), k: rng.below(3), j: rng.below(n_rights), l: rng.below(3) },
             0 | 1 => UskOp::MergeAdjacent { i: rng.below(n_rights) },
             2 => UskOp::SplitName { i: rng.below(n_rights), k: rng.range(1, 3) },
             3 => UskOp::MoveSecret { from: rng.below(n_rights), to: rng.below(n_rights) },
